@@ -200,6 +200,16 @@ def general_cases(draw):
                 "q": draw(st.lists(st.integers(-8, 8).map(lambda v: F(v, 2)), min_size=2, max_size=2))}
     c = draw(gen.curves(2, 3, 2, nums=("float",), rational=False, dim=2,
                         values=st.integers(-16, 16).map(lambda v: F(v, 4))))
+    # continuous curves only: where the curve jumps the minimum distance need not be attained
+    U, p = c["U"], c["p"]
+    keep, cnt = [], {}
+    for u in U:
+        cnt[u] = cnt.get(u, 0) + 1
+        if u in (U[0], U[-1]) or cnt[u] <= p:
+            keep.append(u)
+    dropped = len(U) - len(keep)
+    c["U"] = keep
+    c["P"] = c["P"][: len(c["P"]) - dropped]
     return {"kind": kind, "curve": c, "qkind": draw(st.sampled_from(["grid", "on-curve"])),
             "t0": draw(st.integers(1, 31)),
             "q": draw(st.lists(st.integers(-8, 8).map(lambda v: F(v, 2)), min_size=2, max_size=2))}
